@@ -11,7 +11,7 @@ import numpy as np
 
 from . import core, sums
 from .core import ObjV, SymList, MapSeq, LArr, LArr2, HeapArr1, HeapArr2, HeapCol, Opaque, Unsupported, is_z3, to_z3num, to_real, ite, conj, disj, neg, NONE, CLASSES, str_const
-from .interp import (PyObjV, FuncBound, ClassV, FuncV, LambdaV, BoundMethod, ArrMethod, ModuleV, BuiltinV, GenV, ForallV, ExistsV, _Raise, _Return, is_arr, is_arr2, is_concrete, concrete_int, simp, Infeasible)
+from .interp import (ImpliesV, PyObjV, FuncBound, ClassV, FuncV, LambdaV, BoundMethod, ArrMethod, ModuleV, BuiltinV, GenV, ForallV, ExistsV, _Raise, _Return, is_arr, is_arr2, is_concrete, concrete_int, simp, Infeasible)
 
 EXC_BASES = {
     "Exception": [], "AssertionError": ["Exception"], "ValueError": ["Exception"], "KeyError": ["LookupError"], "IndexError": ["LookupError"], "LookupError": ["Exception"],
@@ -152,6 +152,12 @@ def eval_call(it, node, env):
             raise Unsupported("super().%s" % f.attr)
         args, kwargs = eval_args(it, node, env)
         return it.call_function(fi, [env["self"]] + args, kwargs, node)
+    cs = getattr(it, "call_stubs", None)
+    if cs:
+        key = ast.unparse(f)
+        if key in cs:
+            it.assumptions_log.add("external call %s(...): result havocked (the contract's ghost value %s; nothing is assumed about it)" % (key, cs[key]))
+            return it.ghost_env[cs[key]]
     fv = it.eval(f, env)
     args, kwargs = eval_args(it, node, env)
     return apply(it, fv, args, kwargs, node)
@@ -1091,8 +1097,8 @@ def spec_implies(it, node, env):
         if not a:
             return True
         return it.truth(it.eval(node.args[1], env))
-    if isinstance(a, (ForallV, ExistsV)):
-        raise Unsupported("quantified antecedent")
+    if isinstance(a, (ForallV, ExistsV)) or (isinstance(a, tuple) and a and a[0] == "and"):
+        return ImpliesV(a, lambda: it.truth(it.eval(node.args[1], env)))
     it.pc.append(a)
     n_pc = len(it.pc)
     try:
